@@ -71,6 +71,19 @@ void StructSyncManager::sync_direct_access_from_struct_value(
             const Variable &member_value = member_pair.second;
             std::string qualified_name = base_name + "." + member_name;
 
+            // "ys[0]" のようなプリミティブ配列要素のキーは宣言時に作られた
+            // プレースホルダー（値は更新されない）。要素変数は配列メンバー本体
+            // ("ys") の array_values から下で生成するので、古い値で上書きしない
+            size_t bracket_pos = member_name.find('[');
+            if (bracket_pos != std::string::npos && !member_value.is_struct) {
+                auto base_it = source.struct_members.find(
+                    member_name.substr(0, bracket_pos));
+                if (base_it != source.struct_members.end() &&
+                    base_it->second.is_array) {
+                    continue;
+                }
+            }
+
             vars[qualified_name] = member_value;
             Variable &dest_member = vars[qualified_name];
             dest_member.is_assigned = true;
